@@ -34,7 +34,7 @@ def run_kernel(ctx, cfg, mods, fn, mkargs, hooks=None):
 def prove_paths(ctx, paths, goal, pre=(), timeout=None, twin=None):
     """paths from run_kernel; goal(tr, ret, outs) -> list[(label, formula)]; pre: BV-level assumptions / callables.
        returns ('unsat', info) | ('sat', model, label, info) | ('unknown', info) | ('event', status, exc)"""
-    tmo = timeout or (300 if ctx.thorough else 60)
+    tmo = timeout or (300 if ctx.thorough else 100)
     infos = []; nq = 0
     for pc, status, res in paths:
         if status != 'ok': return ('event', status, res, pc)
